@@ -29,5 +29,5 @@ for mid in ids:
         res.setdefault(mid, {})[pr] = dict(rc=q.returncode, verdict=verdict, wall=round(time.time() - t0, 1), lines=[l[:400] for l in lines][:12])
         print(mid, pr, verdict, '%.0fs' % (time.time() - t0), '|', (lines[0][:160] if lines else out[-200:].replace('\n', ' ')))
         sys.stdout.flush()
-    json.dump(res, open(V + '/seeded/MATRIX.json', 'w'), indent=1)
+    json.dump(res, open(os.environ.get('MM_OUT') or (V + '/seeded/MATRIX.json'), 'w'), indent=1)  # MM_OUT: private result file, so that several instances can run side by side (merge the ids afterwards)
 shutil.rmtree(work, ignore_errors=True)
